@@ -23,15 +23,16 @@ type XCase struct {
 	Opts     gen.OptSpec `json:"opts"`
 	Cmp      string      `json:"cmp"`
 	Keys     []gen.Hex   `json:"keys"`
-	Ops      []dbm.Op    `json:"ops"`      // put del batch compact reopen idle tropen trcommit trdiscard burst
-	CrashAt  int         `json:"crashat"`  // image taken just before the CrashAt-th mutating storage operation (counted from before the first Open)
-	TailSeed uint64      `json:"tailseed"` // decides, per file, how much of the unsynced tail survives
+	Ops      []dbm.Op    `json:"ops"`               // put del batch compact reopen idle tropen trcommit trdiscard burst
+	CrashAt  int         `json:"crashat"`           // image taken just before the CrashAt-th mutating storage operation (counted from before the first Open)
+	TailSeed uint64      `json:"tailseed"`          // decides, per file, how much of the unsynced tail survives
+	TailAlg  int         `json:"tailalg,omitempty"` // 0: five tail modes; 1: adds cuts at page / journal-block boundaries followed by zeros up to the old length
 	Nested   []int       `json:"nested,omitempty"`
 	After    []dbm.Op    `json:"after,omitempty"`
 	All      bool        `json:"all,omitempty"` // thorough: enumerate every crash instant of this history
 }
 
-func tailMode(seed uint64) vfs.TailMode {
+func tailMode(seed uint64, alg int) vfs.TailMode {
 	return func(fd storage.FileDesc, synced, n int) (int, []byte) {
 		h := seed ^ uint64(fd.Num)*0x9e3779b97f4a7c15 ^ uint64(fd.Type)<<56
 		h ^= h >> 29
@@ -41,6 +42,28 @@ func tailMode(seed uint64) vfs.TailMode {
 			return n, nil
 		}
 		cut := synced + int((h>>8)%uint64(n-synced+1))
+		if alg == 1 {
+			// "the length made it to disk, some data pages did not": the tail is cut at a page
+			// boundary (4 KiB) or at a journal block boundary (32 KiB) inside the unsynced part
+			// and followed by zeros up to the old length. Still "cut and followed by zero bytes".
+			switch m := h % 8; m {
+			case 5, 6, 7:
+				unit := 4096
+				if m != 5 {
+					unit = 32768
+				}
+				b := cut / unit * unit
+				if m == 7 {
+					b = n / unit * unit // the last boundary
+				}
+				if b < synced || b == 0 {
+					b = cut
+				}
+				return b, make([]byte, n-b)
+			default:
+				h = h/8*5 + m
+			}
+		}
 		switch h % 5 {
 		case 0:
 			return synced, nil // unsynced tail lost
@@ -272,7 +295,7 @@ func runCrashOnce(c *XCase, crashAt int) (st xStats, err error) {
 	}()
 	o := c.Opts.Build(c.Cmp)
 	fs := vfs.New()
-	fs.SetCrash(crashAt, tailMode(c.TailSeed))
+	fs.SetCrash(crashAt, tailMode(c.TailSeed, c.TailAlg))
 	issued, err := c.runHistory(fs, o, &st)
 	if err != nil {
 		return st, err
@@ -281,7 +304,7 @@ func runCrashOnce(c *XCase, crashAt int) (st xStats, err error) {
 	img, op := fs.Image()
 	if img == nil {
 		// the history ended before the crash instant: crash right at the end
-		img = fs.CrashNow(tailMode(c.TailSeed))
+		img = fs.CrashNow(tailMode(c.TailSeed, c.TailAlg))
 		st.atEnd = true
 	} else {
 		st.crashed = true
@@ -300,7 +323,7 @@ func runCrashOnce(c *XCase, crashAt int) (st xStats, err error) {
 	}
 	// recovery, possibly crashing again during it
 	for _, n := range c.Nested {
-		img.SetCrash(n, tailMode(c.TailSeed^uint64(n)*0x9e37))
+		img.SetCrash(n, tailMode(c.TailSeed^uint64(n)*0x9e37, c.TailAlg))
 		db, oerr := leveldb.Open(img, o)
 		if oerr != nil {
 			if img2, _ := img.Image(); img2 == nil {
@@ -369,6 +392,13 @@ func drawXCase(t *rapid.T) *XCase {
 	c.Keys = gen.DrawKeyPool(t, 3, 24)
 	nk := len(c.Keys)
 	kinds := []string{"put", "put", "put", "put", "put", "put", "put", "put", "del", "del", "batch", "batch", "bigbatch", "compact", "idle", "reopen", "tropen", "trcommit", "trcommit", "trdiscard", "burst"}
+	// long-journal shape: a write buffer well above the 32 KiB journal block and some large
+	// values, so that journal records straddle block boundaries
+	longj := rapid.IntRange(0, 5).Draw(t, "longjournal") == 0
+	if longj {
+		c.Opts.WriteBuffer = rapid.SampledFrom([]int{1 << 17, 1 << 20}).Draw(t, "wbj")
+		kinds = append(kinds, "fill", "fill", "fill", "batch", "batch", "batch")
+	}
 	og := rapid.Custom(func(t *rapid.T) dbm.Op {
 		op := dbm.Op{T: rapid.SampledFrom(kinds).Draw(t, "op")}
 		op.Sync = rapid.IntRange(0, 2).Draw(t, "sync") == 0
@@ -377,6 +407,10 @@ func drawXCase(t *rapid.T) *XCase {
 			op.K = rapid.IntRange(0, nk-1).Draw(t, "k")
 			op.V = gen.DrawVSpec(t, "v", false, 2200)
 			op.NoMerge = rapid.IntRange(0, 7).Draw(t, "nm") == 0
+		case "fill":
+			op.T = "put"
+			op.K = rapid.IntRange(0, nk-1).Draw(t, "k")
+			op.V = gen.VSpec{Len: rapid.SampledFrom([]int{3000, 9000, 15000, 28000, 32000}).Draw(t, "fl") + rapid.IntRange(0, 900).Draw(t, "fx"), Fill: 1}
 		case "del":
 			op.K = rapid.IntRange(0, nk-1).Draw(t, "k")
 		case "batch":
@@ -386,7 +420,11 @@ func drawXCase(t *rapid.T) *XCase {
 				if rapid.IntRange(0, 3).Draw(t, "bdel") == 0 {
 					bo.Del = true
 				} else {
-					bo.V = gen.DrawVSpec(t, "bv", false, 700)
+					bvmax := 700
+					if longj {
+						bvmax = 4200
+					}
+					bo.V = gen.DrawVSpec(t, "bv", false, bvmax)
 				}
 				op.B = append(op.B, bo)
 			}
@@ -423,6 +461,7 @@ func drawXCase(t *rapid.T) *XCase {
 		c.CrashAt = 4 + rapid.IntRange(1, 60+len(c.Ops)*6).Draw(t, "crashat")
 	}
 	c.TailSeed = rapid.Uint64().Draw(t, "tail")
+	c.TailAlg = rapid.SampledFrom([]int{0, 1, 1}).Draw(t, "tailalg")
 	if rapid.IntRange(0, 3).Draw(t, "nest") == 0 {
 		c.Nested = rapid.SliceOfN(rapid.IntRange(1, 14), 1, 2).Draw(t, "nested")
 	}
@@ -445,6 +484,12 @@ func xClassify(c *XCase, st xStats) (bool, []string) {
 	}
 	if st.torn > 0 {
 		cl = append(cl, "torn-files")
+		if c.TailAlg == 1 {
+			cl = append(cl, "torn-files-with-boundary-cut-modes")
+		}
+	}
+	if c.Opts.WriteBuffer >= 1<<17 {
+		cl = append(cl, "long-journal-shape")
 	}
 	if st.nested > 0 {
 		cl = append(cl, "nested-crash-in-recovery")
